@@ -91,13 +91,14 @@ def new_frames(p):
     """per step: the frames appended to the output by that step (list of trees)"""
     out = []
     prev = []
-    for op, parts in zip(p['ops'], p['parts']):
+    cleared = p.get('cleared') or [False] * len(p['ops'])
+    for op, parts, clr in zip(p['ops'], p['parts'], cleared):
         cur = parts[1]
         if op[0] == 'Drain':
             out.append([])
             prev = []
             continue
-        if len(cur) >= len(prev) and cur[:len(prev)] == prev:
+        if not clr and len(cur) >= len(prev) and cur[:len(prev)] == prev:
             out.append(cur[len(prev):])
         else:
             out.append(cur)       # the buffer was cleared by a received GOAWAY during this step
